@@ -25,7 +25,7 @@ RND = bytes(random.Random(7).getrandbits(8) for _ in range(100000))
 PREGZ = gzip.compress(b'pre-compressed by the application, very repetitive ' * 20000, 6)
 BADCOOKIES = {'ok200cookie1': 'clastic_cookie=QUJD?k\xe9=InYi', 'ok200cookie2': 'clastic_cookie=QUJ?a=InYi',
               'ok200cookie3': 'clastic_cookie=not-a-cookie-at-all; other=1'}
-SCENARIOS = ['post200', 'ok200pregz', 'ok200cookie1', 'ok200cookie2', 'ok200cookie3', 'ok200vary', 'ok200prof', 'ok200', 'ok200big', 'ok200random', 'ok200empty', 'ctx', 'ctxbig', 'head', 'redirect', 'raise404', 'ret404',
+SCENARIOS = ['nohdr204', 'ok200mount', 'post200', 'ok200pregz', 'ok200cookie1', 'ok200cookie2', 'ok200cookie3', 'ok200vary', 'ok200prof', 'ok200', 'ok200big', 'ok200random', 'ok200empty', 'ctx', 'ctxbig', 'head', 'redirect', 'raise404', 'ret404',
              'nb404', 'unknown404', 'wrong405', 'raise503', 'ret418', 'uncaught500']
 
 
@@ -73,7 +73,12 @@ def build(stack):
         r = Response(PREGZ, mimetype='text/plain')
         r.headers['Content-Encoding'] = 'gzip'      # the application serves a pre-compressed payload
         return r
+    def nohdr204():
+        r = Response(status=204)
+        del r.headers['Content-Type']            # No Content: no entity, no Content-Type
+        return r
     routes = [('/ok200', lambda: Response(b'small body', mimetype='text/plain')),
+              ('/nohdr204', nohdr204),
               POST('/post200', lambda: Response(b'posted ok', mimetype='text/plain')),
               ('/ok200pregz', pregz),
               ('/ok200vary', with_vary),
@@ -98,7 +103,7 @@ def build(stack):
 def request(app, scen, ae):
     from werkzeug.test import create_environ, run_wsgi_app
     path = '/' + scen if scen != 'unknown404' else '/no/such/url'
-    if scen in BADCOOKIES:
+    if scen in BADCOOKIES or scen == 'ok200mount':
         path = '/ok200'
     method = 'HEAD' if scen == 'head' else ('POST' if scen == 'post200' else 'GET')
     # a sort key for the profiler WITHOUT its trigger parameter: the profiler must stay out of the way
@@ -111,6 +116,8 @@ def request(app, scen, ae):
         env['HTTP_ACCEPT_ENCODING'] = AE_HEADER[ae]
     if scen in BADCOOKIES:
         env['HTTP_COOKIE'] = BADCOOKIES[scen]       # a client presenting a malformed / foreign cookie
+    if scen == 'ok200mount':
+        env['SCRIPT_NAME'] = '/caf\xe9/m\xfcnchen'    # mounted under a prefix whose bytes are not UTF-8 (a latin-1 deployment)
     try:
         app_iter, status, headers = run_wsgi_app(app, env)
         body = b''.join(app_iter)
